@@ -243,6 +243,28 @@ fn post_ops(e: &Entry, trusted: bool, v: &dyn DynValue, input: &[u8], ctx: &mut 
             .with(|p| p.borrow_mut().take())
             .unwrap_or_else(|| ("?".into(), "?".into()));
         let sig = format!("C14:panic:{}:{}", file, sanitize(&msg));
+        // is the panic a property of the VALUE, or of what this thread did before?
+        // Decode the same bytes and hash on a fresh thread (fresh thread-local
+        // state everywhere): a receiver operation must not depend on history.
+        let fresh_panics = std::thread::scope(|sc| {
+            sc.spawn(|| {
+                engine::quiet_panics_on_this_thread();
+                match e.decode(trusted, input) {
+                    Ok(v2) => panic::catch_unwind(AssertUnwindSafe(|| v2.hash())).is_err(),
+                    Err(_) => false,
+                }
+            })
+            .join()
+            .unwrap_or(true)
+        });
+        vensure!(
+            fresh_panics,
+            "C14:panic:hash-panics-depending-on-what-the-thread-decoded-before",
+            "{}: hash() of the value decoded by {} panics on this thread ({file}: {msg}) but NOT on a fresh thread that decodes the same bytes: the outcome depends on earlier operations; input = {}",
+            e.name,
+            if trusted { "from_bytes_unchecked" } else { "from_bytes" },
+            hx(input)
+        );
         ctx.known_or_fail(&sig, || {
             format!(
                 "{}: hash() of a value accepted by {} panics at {file}: {msg}; input = {}",
@@ -533,6 +555,12 @@ pub fn case_mutated(bytes: &[u8], ctx: &mut Ctx) -> CaseResult {
         first = first.min(at);
     }
     let o = probe(e, &buf, ctx)?;
+    if o.ok_untrusted || o.ok_trusted {
+        // then the valid encoding it was derived from, on the same thread (same
+        // keys, challenge, plot ... as the mutant): the order mutant -> original
+        let _ = probe(e, &enc, ctx)?;
+        ctx.label("mutant-accepted-then-original-probed");
+    }
     ctx.label(format!("type:{}", e.name));
     // everything before the first mutated offset parses as in the valid
     // encoding, so the decoder consumed at least that much before its verdict
@@ -967,6 +995,12 @@ pub fn case_sweep(bytes: &[u8], ctx: &mut Ctx) -> CaseResult {
             inner += 1;
         }
         buf[*p] = enc[*p];
+        // back to the valid encoding after every position: what the thread has
+        // decoded in between must not matter for it
+        if oks > 0 {
+            let _ = probe(e, &enc, ctx)?;
+            inner += 1;
+        }
     }
     ctx.add_inner(inner);
     if cand.iter().any(|p| *p >= 16) || oks > 0 {
